@@ -108,6 +108,8 @@ def cli_routes(data, allow_plugins=True, subprocess_too=False):
             # a separate interpreter (none of this run's fixture modules there) whose stdout takes ASCII only
             so, se, sx = clirun.run_sub(['-f', f, '-E'] + P, env_extra={'PYTHONIOENCODING': 'ascii'})
             out.append(('-f with a stdout that takes ASCII only', doc_of(so) if sx == 0 else 'exit %d: %s' % (sx, se[-200:])))
+            so, se, sx = clirun.run_sub(['-f', f, '-E'] + P, optimise=True)
+            out.append(('-f under python -O', doc_of(so) if sx == 0 else 'exit %d: %s' % (sx, se[-200:])))
         so, se, sx = clirun.run_main(['-p', d, '-a', '-E'] + P)
         out.append(('-a', doc_of(so, pick=0) if sx == 0 else 'exit %d: %s' % (sx, se[-200:])))
         od = os.path.join(tmp, 'out')
